@@ -302,17 +302,48 @@ def permute_key(k, perm):
     return "%d%d" % tuple(sorted((a, b)))
 
 
+def gen_world_any(rng, tier):
+    """85 % stub calculators, 15 % a real Calculator built from a sessionsim world with a lattice block"""
+    if rng.random() < 0.85:
+        return gen_stub_world(rng, tier)
+    w = W.gen_world(rng, "quick", "A", force_lattice=True, method=rng.choice(["lsq_poly", "spline", "pchip"]), cli_spelling=True)
+    return {"kind": "calculator", "session_world": w, "strain_kind": "lattice:" + w["static"]["system"]}
+
+
+def build_calculator(world):
+    import shutil
+    import tempfile
+    import cij.core.calculator as cc
+    root = tempfile.mkdtemp(prefix="tasksim-", dir="/dev/shm" if os.path.isdir("/dev/shm") else None)
+    try:
+        w = world["session_world"]
+        W.materialize(w, root)
+        import logging
+        logging.getLogger("cij").setLevel(logging.ERROR)
+        calc = cc.Calculator(os.path.join(root, w["datadir"], w["settings_name"]))
+    finally:
+        shutil.rmtree(root, ignore_errors=True)
+    strain = calc._full_modulus.get_axial_strains()
+    world["nt"], world["ntv"] = calc.dims
+    world["strain"] = strain.tolist()
+    return calc, strain
+
+
 def run_world(seed, tier, world=None, histories=None, relations=True):
     rng = random.Random(seed)
     t0 = time.time()
     if world is None:
-        world = gen_stub_world(rng, tier)
+        world = gen_world_any(rng, tier)
     if histories is None:
         histories = gen_histories(rng, 30 if tier == "quick" else 60)
+    if world["kind"] == "calculator":
+        calc, strain = build_calculator(world)
+        histories = histories[: 3 + (len(histories) - 3) // 2]
+    else:
+        calc = build_stub(world)
+        strain = numpy.array(world["strain"])
     mon = Monitor()
     mon.install()
-    calc = build_stub(world)
-    strain = numpy.array(world["strain"])
     verdicts = []
     runs = 0
     sizes = {}
@@ -408,13 +439,13 @@ def run_world(seed, tier, world=None, histories=None, relations=True):
         mon.violations = []
     return {"verdicts": verdicts, "runs": runs, "stats": mon.stats, "event_digest": mon.digest(), "n_events": len(mon.events),
             "strain_kind": world.get("strain_kind"), "maxdev": maxdev, "history_sizes": {str(k): v for k, v in sizes.items()},
-            "rel": rel, "scale": scale, "wall": time.time() - t0, "n_histories": len(histories),
-            "sample": {"seed": seed, "strain_kind": world.get("strain_kind"), "strain_row0": world["strain"][0], "history": histories[-1]}}
+            "rel": rel, "scale": scale, "wall": time.time() - t0, "n_histories": len(histories), "world_kind": world["kind"],
+            "sample": {"seed": seed, "world_kind": world["kind"], "strain_kind": world.get("strain_kind"), "strain_row0": world["strain"][0], "history": histories[-1]}}
 
 
 def world_digest(seed, tier):
     rng = random.Random(seed)
-    w = gen_stub_world(rng, tier)
+    w = gen_world_any(rng, tier)
     h = gen_histories(rng, 30 if tier == "quick" else 60)
     return hashlib.sha256(json.dumps([w, h], sort_keys=True).encode()).hexdigest()
 
